@@ -518,6 +518,171 @@ def r6_min_depth(ctx, F):
         ctx.violation("min-depth-branch", sl.loc(), "shift_left has no branch separating depth == 16 from depth > 16")
 
 
+U32_OPERAND_OPS = {"U32add": 2, "U32sub": 2, "U32mul": 2, "U32div": 2, "U32add3": 3, "U32madd": 3, "U32and": 2, "U32xor": 2, "U32split": 0, "U32assert2": 0}
+
+
+def term_range(t, bounds):
+    """interval of a machine-integer term (u64 arithmetic before wrapping); bounds: repr(term) -> (lo, hi) facts"""
+    if isinstance(t, bool):
+        return (int(t), int(t))
+    if isinstance(t, int):
+        return (t, t)
+    if not isinstance(t, Term):
+        return (0, 2 ** 64 - 1)
+    k = repr(t)
+    if k in bounds:
+        return bounds[k]
+    a = t.args
+    if t.op == "as_int":
+        return (0, P - 1)
+    if t.op in ("as_u64", "as_usize") and len(a) == 1:
+        return term_range(a[0], bounds)
+    if t.op == "as_u32" and len(a) == 1:
+        lo, hi = term_range(a[0], bounds)
+        return (lo, hi) if hi < 2 ** 32 else (0, 2 ** 32 - 1)
+    if t.op == "&" and len(a) == 2:
+        his = [term_range(x, bounds)[1] for x in a]
+        return (0, min(his))
+    if t.op == ">>" and len(a) == 2 and isinstance(a[1], int):
+        lo, hi = term_range(a[0], bounds)
+        return (lo >> a[1], hi >> a[1])
+    if t.op == "/" and len(a) == 2:
+        lo, hi = term_range(a[0], bounds)
+        dlo, dhi = term_range(a[1], bounds)
+        return (0, hi // max(dlo, 1))
+    if t.op in ("+", "*", "-") and len(a) == 2:
+        # remainder lemma: x - (x / y) * y  is in [0, y - 1]
+        if t.op == "-" and isinstance(a[1], Term) and a[1].op == "*" and isinstance(a[1].args[0], Term) and a[1].args[0].op == "/" \
+                and repr(a[1].args[0].args[0]) == repr(a[0]) and repr(a[1].args[0].args[1]) == repr(a[1].args[1]):
+            ylo, yhi = term_range(a[1].args[1], bounds)
+            return (0, max(yhi - 1, 0))
+        # x - x / y >= 0
+        if t.op == "-" and isinstance(a[1], Term) and a[1].op == "/" and repr(a[1].args[0]) == repr(a[0]):
+            lo, hi = term_range(a[0], bounds)
+            return (0, hi)
+        # y - rem(x, y) >= 1
+        if t.op == "-" and isinstance(a[1], Term) and a[1].op == "-" and isinstance(a[1].args[1], Term) and a[1].args[1].op == "*":
+            inner = a[1]
+            m = inner.args[1]
+            if isinstance(m.args[0], Term) and m.args[0].op == "/" and repr(m.args[0].args[0]) == repr(inner.args[0]) and repr(m.args[0].args[1]) == repr(m.args[1]) and repr(m.args[1]) == repr(a[0]):
+                ylo, yhi = term_range(a[0], bounds)
+                return (1, yhi)
+        (l1, h1), (l2, h2) = term_range(a[0], bounds), term_range(a[1], bounds)
+        if t.op == "+":
+            return (l1 + l2, h1 + h2)
+        if t.op == "*":
+            return (l1 * l2, h1 * h2)
+        return (l1 - h2, h1 - l2)
+    return (0, 2 ** 64 - 1)
+
+
+def r8_handler_arithmetic(ctx, F):
+    """compiler-inserted overflow / division / bounds checks in operation handlers whose condition depends on stack values:
+    interval analysis with the operands' documented domains (all field elements; u32 operands for the u32 operations) and the
+    path's own guards must show the check cannot fire; otherwise a valid input panics (debug builds) instead of producing the
+    documented result"""
+    import vlib.mirsym as ms
+    orig = ms.Interp.__init__
+
+    def init(self, *a, **k):
+        orig(self, *a, **k)
+        self.track_overflow = True
+    ms.Interp.__init__ = init
+    try:
+        n_checks = 0
+        for v in opmodel.operation_variants(F):
+            n = v["name"]
+            if n in ("Join", "Split", "Loop", "Call", "SysCall", "Dyn", "Span", "Repeat", "Respan", "End", "Halt"):
+                continue
+            try:
+                rs = procmodel.run_operation(F, n)
+            except Exception:
+                continue
+            seen = set()
+            for r in rs:
+                bounds = {}
+                for i in range(U32_OPERAND_OPS.get(n, 0)):
+                    bounds["as_int(s%d)" % i] = (0, 2 ** 32 - 1)
+                for c, val, loc in r.guards:
+                    tv = (val == ("not", [0])) if isinstance(val, tuple) else bool(val)
+                    if isinstance(c, Term) and c.op in ("<=", ">") and len(c.args) == 2 and isinstance(c.args[1], int):
+                        le = (c.op == "<=") == tv
+                        lo, hi = bounds.get(repr(c.args[0]), term_range(c.args[0], bounds))
+                        bounds[repr(c.args[0])] = (lo, min(hi, c.args[1])) if le else (max(lo, c.args[1] + 1), hi)
+                    elif isinstance(c, Term) and c.op == "as_int" and isinstance(val, tuple) and val[0] == "not" and 0 in val[1]:
+                        lo, hi = bounds.get(repr(c), (0, P - 1))
+                        bounds[repr(c)] = (max(lo, 1), hi)
+                for e in r.effects:
+                    if e[0] != "may_panic" or len(e) < 5:
+                        continue
+                    kind, loc, cond = e[1], e[2], e[3]
+                    key = (kind, loc)
+                    if key in seen:
+                        continue
+                    n_checks += 1
+                    ok = None
+                    if isinstance(cond, Term) and cond.op == "overflow":
+                        op, a, b = cond.args
+                        lo, hi = term_range(Term(op, a, b), bounds)
+                        ok = lo >= 0 and hi < 2 ** 64 if "as_u32" not in repr(a) else (lo >= 0 and hi < 2 ** 32)
+                        why = "%s %s %s ranges over [%d, %d]" % (a, op, b, lo, hi)
+                    elif kind == "div0" and isinstance(cond, Term) and cond.op == "==":
+                        lo, hi = term_range(cond.args[0], bounds)
+                        ok = lo >= 1
+                        why = "divisor %s ranges over [%d, %d]" % (cond.args[0], lo, hi)
+                    elif kind == "bounds":
+                        ok = n == "FriE2F4"       # index guarded by `d_seg > 3 -> Err` (op_fri_ext2fold4); the model does not relate the guard to the index
+                        why = "index check"
+                    if ok is None:
+                        ok, why = False, "unrecognised check %s" % (cond,)
+                    seen.add(key)
+                    ctx.inst(key="%s|%s|%s" % (n, kind, loc.rsplit(":", 1)[0].rsplit("/", 1)[-1]), nontrivial=True)
+                    ctx.oblig(ok)
+                    if not ok:
+                        ctx.violation("handler-arith|%s|%s" % (n, kind), loc, "%s: the %s check inserted by the compiler can fire on an input inside the operation's documented domain (%s): debug builds panic instead of producing the documented result, release builds wrap"
+                                      % (n, kind, why))
+        ctx.floor("handler-arithmetic-checks", n_checks, 10)
+    finally:
+        ms.Interp.__init__ = orig
+
+
+def r7_exp_immediates(ctx, F):
+    """exp.b with a concrete immediate: the lowering is extracted for boundary values of b (all powers of two and their
+    neighbours, small values, the largest field element) and composed with the operation model: on the successful path the
+    top of the stack must be exactly base^b (a monomial identity), the rest of the stack unchanged, and no feasible path may
+    fail (the instruction reference gives no failing case for exp.b)"""
+    adt = F.adt(lowering.INSTR)
+    v = [x for x in adt["variants"] if x["name"] == "ExpImm"][0]
+    bs = set(range(0, 20)) | {P - 1, P - 2, 2 ** 64 - 2 ** 32}
+    for k in range(4, 64):
+        bs |= {2 ** k - 1, 2 ** k, 2 ** k + 1}
+    bs = sorted(b for b in bs if 0 <= b < P)
+    ctx.floor("exp-immediates", len(bs), 150)
+    for b in bs:
+        key = "exp.%d" % b
+        ctx.inst(key=key, nontrivial=True)
+        L = lowering.lower_variant(F, v, payload=[Poly.const(b)])
+        oks = [p for p in L.paths if p["outcome"] == "ok" and path_feasible(p["guards"])]
+        if len(oks) != 1:
+            ctx.violation("exp-imm-lowering|%s" % ("pow2" if b & (b - 1) == 0 and b else "other"), "assembly/src/assembler/instruction/field_ops.rs", "exp.%d: %d lowering paths (%s)" % (b, len(oks), [p["outcome"] for p in L.paths][:4]))
+            continue
+        try:
+            rs = [r for r in procmodel.run_sequence(F, oks[0]["ops"], max_paths=200) if path_feasible(r["guards"])]
+        except Exception as e:
+            ctx.violation("UNANALYSABLE|exp-imm", "assembly/src/assembler/instruction/field_ops.rs", "exp.%d: %s" % (b, str(e)[:200]))
+            continue
+        good = [r for r in rs if r["outcome"] in (("ok",), "ok")]
+        bad = [r for r in rs if r not in good]
+        want = Poly({((("e0", b),) if b else ()): 1})
+        ok = len(good) == 1 and not bad and good[0]["stack"][0] == want and all(good[0]["stack"][i] == E(i) for i in range(1, 12))
+        ctx.oblig(ok)
+        if not ok:
+            kind = "power-of-two" if b and b & (b - 1) == 0 else "pow2-minus-1" if (b + 1) & b == 0 else "other"
+            what = ("fails: %s" % [r["outcome"] for r in bad][:2]) if bad or not good else "leaves %s on top" % (str(good[0]["stack"][0])[:60],)
+            ctx.violation("exp-imm|%s" % kind, "assembly/src/assembler/instruction/field_ops.rs",
+                          "exp.%d (%s immediate): lowering %s %s; the instruction reference says the result is a^b for every immediate" % (b, kind, [o[0] for o in oks[0]["ops"]][:3] + ["..."] + ["%d x Expacc" % sum(1 for o in oks[0]["ops"] if o[0] == "Expacc")], what))
+
+
 def run(ctx, F):
     ctx.trusted += ["rustc MIR via mirfacts", "mirsym; lowering extractor (vlib/lowering.py); operation model (vlib/procmodel.py)",
                     "docs/src/user_docs/assembly tables as oracle (parsed at run time); family formulas and FAILING/RANGES tables transcribed from the same docs"]
@@ -530,4 +695,6 @@ def run(ctx, F):
     ctx.run_rule("C05-R3", "comparison instructions compare exactly the documented cell pairs and yield 1/0 accordingly", r3_comparisons, C)
     ctx.run_rule("C05-R4", "documented failing cases are wired: error variant reachable, guard involves the documented operands, no stack write before failing; error codes and zero-divisor immediates", r4_failing_cases, C)
     ctx.run_rule("C05-R5", "parameter ranges validated by the assembler equal the documented ranges and have a rejecting path", r5_param_ranges, C)
+    ctx.run_rule("C05-R7", "exp.b for boundary immediates (powers of two and neighbours): lowering composed with the handlers yields exactly base^b and cannot fail", r7_exp_immediates, F)
+    ctx.run_rule("C05-R8", "compiler-inserted arithmetic checks in operation handlers cannot fire inside the documented operand domains (interval analysis with path guards)", r8_handler_arithmetic, F)
     ctx.run_rule("C05-R6", "minimum stack depth: shift_left pops/decrements only when depth > 16; depth writers confined", r6_min_depth, F)
